@@ -301,14 +301,14 @@ theorem stW_step (s : State) (hf : WFlags s.cfg) (op : Op) (h : StW s) : StW (st
     · rename_i hc
       refine ⟨fun m' hm' => stW_exec s hf m hs op hd hp m' hm', ?_⟩
       intro hsn
-      rw [exec_snap] at hsn
+      rw [exec_snap_same] at hsn
       have hw : op.writes = false := by simpa [hsn] using hc
       rw [exec_pend s m op (not_writes_not_next hw)]; exact h.pend hsn
     · dsimp only
       have hex : StW (exec { s with snap := some s.disk, pend := [] } m op).1 := by
         refine ⟨fun m' hm' => ?_, ?_⟩
         · exact stW_exec { s with snap := some s.disk, pend := [] } hf m hs op hd (fun p hp => by simp at hp) m' hm'
-        · intro hsn; rw [exec_snap] at hsn; cases hsn
+        · intro hsn; rw [exec_snap_same] at hsn; cases hsn
       split
       · exact stW_rollbackTx _ hex
       · exact stW_commitTx _ (by rw [exec_cfg]; exact hf) hex
